@@ -458,8 +458,23 @@ pub fn check_bytes(bytes: &[u8], expected: &BTreeMap<u16, Vec<Item>>, all_closed
             true
         } else if out.all_closed_ok {
             &got == want
+        } else if got.len() <= want.len() && got[..] == want[..got.len()] {
+            true
         } else {
-            got.len() <= want.len() && got[..] == want[..got.len()]
+            // A publish reaches the I/O thread as separate messages (method, header, one per
+            // body frame), so a connection that ends under it may have written only the first
+            // k body frames: the last item on the wire may be a whole-frame prefix of the body.
+            let k = got.len();
+            match (got.last(), if k > 0 { want.get(k - 1) } else { None }) {
+                (Some(Item::Body(lw, hw)), Some(Item::Body(li, _))) if k >= 3 && got[..k - 1] == want[..k - 1] && lw < li && lw % (frame_max as usize - 8) == 0 => match &want[k - 3] {
+                    Item::M(name, id) if name == "Basic.Publish" => {
+                        res.obs("publishes_cut_between_body_frames", 1);
+                        crate::rng::fnv(&ops::body_for(id, *li)[..*lw]) == *hw
+                    }
+                    _ => false,
+                },
+                _ => false,
+            }
         };
         if !ok {
             let first = got
